@@ -175,10 +175,45 @@ fn check_lunar_year(ctx: &Ctx, civ: &Civil, t: &LunTable, y: isize, loc: &mut Lo
       Ok(ds) => {
         let want: Vec<(i32, i8, usize, Ymd)> = (0..l.days as usize).map(|k| (l.y, l.m, k + 1, civ.date(o0 as usize + k))).collect();
         if ds != want {
-          ctx.violation("lunar_month_days", l.key(), format!("get_days() lists {} days, first {:?} last {:?}; model: days 1..={} on consecutive civil days from {}", ds.len(), ds.first(), ds.last(), l.days, fmt_ymd(civ.date(o0 as usize))), rp);
+          ctx.violation("lunar_month_days", l.key(), format!("get_days() lists {} days, first {:?} last {:?}; model: days 1..={} on consecutive civil days from {}", ds.len(), ds.first(), ds.last(), l.days, fmt_ymd(civ.date(o0 as usize))), rp.clone());
         }
       }
-      Err(m) => ctx.violation("lunar_month_days", l.key(), format!("panics: {}", m), rp),
+      Err(m) => ctx.violation("lunar_month_days", l.key(), format!("panics: {}", m), rp.clone()),
+    }
+    // history + chain: a listed day whose civil date has already been resolved, stepped inside the month, must list
+    // the parts of the day it now denotes (civil date, the 13 slots starting on that date)
+    if !((7..=26).contains(&l.y) || (235..=241).contains(&l.y)) && l.days >= 29 {
+      loc.transitions += 1;
+      let last = l.days as usize - 1;
+      let r = guard(|| {
+        let ds = LunarMonth::from_ym(l.y as isize, l.m as isize).get_days();
+        let mut out = Vec::new();
+        for (k, n) in [(0usize, 1isize), (0, 14), (last, -1), (14, -14)] {
+          let _ = ds[k].get_solar_day();
+          let _ = ds[k].get_sixty_cycle_day();
+          let s = ds[k].next(n);
+          let hs = s.get_hours();
+          out.push((k, n, s.get_day(), ymd_of(&s.get_solar_day()), hs.len(), ymd_of(&hs[0].get_solar_time().get_solar_day()), ymd_of(&s.get_sixty_cycle_day().get_solar_day())));
+        }
+        out
+      });
+      match r {
+        Ok(out) => {
+          let mut bad = Vec::new();
+          for (k, n, day, sd, nh, h0, sc) in out {
+            let want = civ.date((o0 + k as i64 + n as i64) as usize);
+            if day != (k as isize + n + 1) as usize || sd != want || nh != 13 || h0 != want || sc != want {
+              bad.push(format!("listed day {} (resolved) .next({}): day number {}, civil date {}, {} slots the first on {}, sexagenary day on {}; model: day {} on {}", k + 1, n, day, fmt_ymd(sd), nh, fmt_ymd(h0), fmt_ymd(sc), k as isize + n + 1, fmt_ymd(want)));
+            }
+          }
+          if bad.is_empty() {
+            loc.oc("stepped_listed_lunar_day_ok");
+          } else {
+            ctx.violation("lunar_month_days", format!("{} stepped", l.key()), bad.join("; "), rp);
+          }
+        }
+        Err(m) => ctx.violation("lunar_month_days", format!("{} stepped", l.key()), format!("panics: {}", m), rp),
+      }
     }
   }
 }
